@@ -4,9 +4,71 @@ from ..putfamily import absorb as put_absorb, eval_task as put_eval
 from ..readfamily import absorb as read_absorb, eval_task as read_eval, replay_family, tasks_for
 from ..runner import run_tasks
 
+def tweak(world, rng):
+    """half of the reading worlds get, on one volume, an insecure $topdir/.Trash (no sticky bit, or a symbolic link to a
+    directory, sticky or not) with a populated $uid behind it: a well-formed old entry, a malformed one, and payloads
+    without .trashinfo (a file and a directory) - what an orphan sweep or a purge would go for"""
+    from ..model import cmd_argv
+    if rng.random() < 0.5:
+        return world
+    nodes = {n["p"]: n for n in world["nodes"]}
+    uid = world["uid"]
+    v = rng.choice(world["mounts"])
+    t = v + b"/.Trash"
+    how = rng.choice(["nonsticky", "link-sticky", "link-nonsticky"])
+    for q in [q for q in nodes if q == t or q.startswith(t + b"/")]:
+        del nodes[q]
+    mt = 1000000400
+
+    def d(path, mode=0o755):
+        nodes[path] = {"p": path, "k": "d", "mode": mode, "mtime": mt}
+
+    def f(path, data, mode=0o644):
+        nodes[path] = {"p": path, "k": "f", "data": data, "mode": mode, "mtime": mt}
+    if v not in nodes:
+        d(v)
+    if how == "nonsticky":
+        d(t, rng.choice([0o777, 0o755, 0o2777, 0o4777]))
+        real = t
+    else:
+        real = v + b"/c08-real-trash"
+        for q in [q for q in nodes if q == real or q.startswith(real + b"/")]:
+            del nodes[q]
+        d(real, 0o1777 if how == "link-sticky" else 0o777)
+        nodes[t] = {"p": t, "k": "l", "target": rng.choice([b"c08-real-trash", real])}
+    u = real + b"/%d" % uid
+    d(u, 0o700)
+    d(u + b"/files", 0o700)
+    d(u + b"/info", 0o700)
+    f(u + b"/info/c08good.trashinfo", b"[Trash Info]\nPath=stuff/c08good\nDeletionDate=2000-01-01T00:00:00\n", 0o600)
+    f(u + b"/files/c08good", b"must stay")
+    f(u + b"/info/c08bad.trashinfo", b"", 0o600)
+    f(u + b"/files/c08bad", b"must stay too")
+    f(u + b"/files/c08-orphan", b"no info for me")
+    d(u + b"/files/c08-orphan-dir")
+    f(u + b"/files/c08-orphan-dir/inner", b"deep orphan")
+    world["nodes"] = sorted(nodes.values(), key=lambda n: n["p"])
+    meta = world["meta"]
+    meta["entries"] = [e for e in meta["entries"] if e["tdir"] + b"/info/" + e["name"] + b".trashinfo" in nodes]
+    meta["entries"].append({"tdir": t + b"/%d" % uid if how == "nonsticky" else u, "name": b"c08good", "loc": v.rstrip(b"/") + b"/stuff/c08good",
+                            "rec": b"stuff/c08good", "date": "2000-01-01T00:00:00", "base": v})
+    meta["tdirs"] = list(meta["tdirs"]) + [(u, v)]
+    if world["cmd"] == "restore":
+        world["opts"]["path"] = b"/"
+        world["opts"].pop("trashDir", None)
+    elif world["cmd"] == "rm":
+        world["args"] = [rng.choice([b"*", b"c08*", b"c08good"])]
+    elif world["cmd"] == "empty":
+        world["opts"].pop("userDirs", None)
+        if rng.random() < 0.5:
+            world["opts"].pop("dryRun", None)
+    world["argv"] = cmd_argv(world)
+    return world
+
+
 PUT_CFG = {"oracles": ("C08", "C07"), "violations": ("C08",), "profile": "single", "states": False}
 READ_CFG = {"cmds": ["list", "restore", "empty", "rm"], "oracles": ("C08", "c08", "effects"), "violations": ("C08",),
-            "profile": "mixed", "states": False}
+            "profile": "mixed", "states": False, "tweak": tweak}
 LEVEL_NOTE = ("theorems: trash-put's security check rejects $topdir/.Trash/$uid exactly when $topdir/.Trash is a symlink, "
               "not a directory or not sticky; the scanner of list/empty/rm and trash-restore never yield it then; "
               "trash-list reports the skipped directory")
